@@ -172,10 +172,23 @@ for _p in ("C01", "C09"):
     _s["prop_files"] = _s.get("prop_files", [_p]) + ["C06rs", "C08rs"]
     _s["translate"] = ",".join(x for x in [_s.get("translate"), "entry", "loop"] if x)
 
+# The library end to end, source terms only (Library.v: parser of EntryRs + LoopRs, then the renderer
+# of RenderRs): the property's main theorem stated for that composition
+for _p in ("C01", "C03", "C05", "C06", "C11"):
+    _s = PROPS[_p]
+    _s["prop_files"] = _s.get("prop_files", [_p]) + [f for f in ("C09rs", "C06rs", "C08rs", "Library") if f not in _s.get("prop_files", [])]
+    _have = (_s.get("translate") or "").split(",")
+    _s["translate"] = ",".join([x for x in _have if x] + [x for x in ("render", "entry", "loop") if x not in _have])
+
+# C12 end to end: the translated program against the composition of translated parser and renderer
+_s = PROPS["C12"]
+_s["prop_files"] = _s.get("prop_files", ["C12"]) + ["C09rs", "C06rs", "C08rs", "Program"]
+_s["translate"] = ",".join(x for x in [_s.get("translate"), "render", "entry", "loop"] if x)
+
 # C07 ("rendering any Ok result with any options returns"; "parsing and extending return Ok or Err"):
 # C09_source_to_serde_struct shows the translated renderer returns a value for every tree and option
 # (Some: no stuck primitive, the recursion bottoms out with fuel = number of elements), and the entry
 # points are total around the loop - its check re-proves both ties as well
 _s = PROPS["C07"]
-_s["prop_files"] = _s.get("prop_files", ["C07"]) + ["C09rs", "C06rs", "C08rs"]
+_s["prop_files"] = _s.get("prop_files", ["C07"]) + ["C09rs", "C06rs", "C08rs", "Library"]
 _s["translate"] = ",".join(x for x in [_s.get("translate"), "render", "entry", "loop"] if x)
